@@ -17,12 +17,21 @@ func (g *Gen) strConst(s string) string {
 	if s == "" {
 		return "0"
 	}
-	if k, ok := g.P.strIDs[s]; ok {
-		return fmt.Sprint(k)
+	// content-derived identifier: deterministic across runs and goroutines
+	// (distinct literals collide with probability ~2^-47)
+	h := hashStr("str:" + s)
+	var k uint64
+	for i := 0; i < 12; i++ {
+		c := h[i]
+		var d uint64
+		if c >= 'a' {
+			d = uint64(c-'a') + 10
+		} else {
+			d = uint64(c - '0')
+		}
+		k = k*16 + d
 	}
-	k := len(g.P.strIDs) + 1
-	g.P.strIDs[s] = k
-	return fmt.Sprint(k)
+	return fmt.Sprint(k + 1)
 }
 
 func (g *Gen) constVal(c *ssa.Const) Val {
@@ -560,6 +569,8 @@ func (g *Gen) structHeaps(t types.Type) []string {
 		f := s.Field(i)
 		if _, ok := f.Type().Underlying().(*types.Struct); ok {
 			out = append(out, g.structHeaps(f.Type())...)
+		} else if a, ok := f.Type().Underlying().(*types.Array); ok {
+			out = append(out, elemHeapName(a.Elem()))
 		} else {
 			out = append(out, fieldHeapName(typeKey(t), f.Name()))
 		}
